@@ -15,7 +15,7 @@ from .C06 import _F, _pay, _setup, _weights_ok
 from .common import facts, far, model_angle, simp, tensor_of
 
 PID = "C07"
-LEVEL = "other"
+LEVEL = "model_checking"
 CLAIM = (
     "Bounded symbolic verification: the real FCN / Model / BaseModel / Model_cfit / ModelCfitExtended / CombineFCN / GaussianConstr "
     "gradient, Hessian and Hessian-vector code and the VarsManager bound-transform wrappers (with the real Bound objects) run on a "
